@@ -117,6 +117,21 @@ CHECKS["C10"] = dict(
     technique="symbolic execution of rustc MIR (mirsym) over a file-system model with symlinks + z3; witness replay on a real temp dir",
     note="unix path-list separator; explicit-entry semantics taken from the C04 oracle. " + BASE_NOTE)
 
+CHECKS["C02"] = dict(
+    text="Bounded model checking from MIR of BuildContext::handle_layer -> trait_api::handling::{handle_layer, handle_create_layer, "
+         "handle_update_layer, write_layer, read_layer}, the Layer trait's default methods, the shared layer functions, "
+         "LayerEnv::{read_from_layer_dir, write_to_layer_dir} and the derived (de)serializers, one inductive step from any layers directory "
+         "satisfying the layer invariant. The buildpack's Layer impl is a set of logged harness callbacks: types() arbitrary; strategy in "
+         "{Keep, Update, Recreate, Err, default}; migration in {RecreateLayer, ReplaceMetadata, Err, default}; create/update return Err, the "
+         "default, or one of 7 result shapes (no env; an env entry in each of the four scopes incl. a process; env+exec.d+SBOM; exec.d with a "
+         "missing source). Per path the solver decides: callbacks run exactly as the statement prescribes, the on-disk layer equals the "
+         "callback's result (or, for keep, the previous files with refreshed types), the returned LayerData equals the disk, the bystander "
+         "layer is untouched.",
+    design_ref="DESIGN.md §5 C02",
+    technique="symbolic execution of rustc MIR (mirsym) over a symbolic file-system state with harness-bound trait callbacks + z3; witness replay through the public trait API",
+    note="Layer invariant and metadata law assumed; env variable names concrete (C03 covers symbolic names); quick tier: one SBOM format, no "
+         "pre-existing exec.d program. " + BASE_NOTE)
+
 NOT_YET = "check not built yet in this round (see DESIGN.md §9 build order); no claim is made"
 NOT_APPLICABLE = {}
 ALL = [f"C{i:02d}" for i in range(1, 21)]
